@@ -11,12 +11,12 @@ WK = {("set", "invalidate"): "WK_two", ("set",): "WK_set", ("invalidate",): "WK_
 
 
 def lr_cfg(getters, refreshers, writers, wk, live, preload=False, expected="live", stale_cancels=False, window=True, reg_locked=True, fail_clears="own",
-           outcomes='"val", "err", "nf", "panic"'):
+           outcomes='"val", "err", "nf", "panic"', dead=False, sweep_cancels=False):
     return ("SPECIFICATION Spec\nCONSTANTS\n Getters = {%s}\n Refreshers = {%s}\n Writers = {%s}\n WriterKind <- %s\n"
-            " Outcomes = {%s}\n Preload = %s\n Expected = %s\n StaleCancels = %s\n RegLocked = %s\n FailClears = \"%s\"\n"
+            " Outcomes = {%s}\n Preload = %s\n Expected = %s\n StaleCancels = %s\n RegLocked = %s\n FailClears = \"%s\"\n Dead = %s\n SweepCancels = %s\n"
             "INVARIANTS NoOverlap CleanTable Returned JoinersShare NoStaleInstall NoDrop LockFree%s\n%s" %
             (", ".join(map(str, getters)), ", ".join(map(str, refreshers)), ", ".join(map(str, writers)), wk, outcomes,
-             "TRUE" if preload else "FALSE", '"%s"' % expected, "TRUE" if stale_cancels else "FALSE", "TRUE" if reg_locked else "FALSE", fail_clears,
+             "TRUE" if preload else "FALSE", '"%s"' % expected, "TRUE" if stale_cancels else "FALSE", "TRUE" if reg_locked else "FALSE", fail_clears, "TRUE" if dead else "FALSE", "TRUE" if sweep_cancels else "FALSE",
              " NoWindowInstall" if window else "",
              "PROPERTIES Terminates\n" if live else ""))
 
@@ -148,6 +148,11 @@ def scenarios_c10(quick, seed):
             # a computation that cancels itself is not a write: the flight is not disturbed and the value it loads must be cached
             out[-1].update(getters=2, bulk=0, writers=[["computecancel"], ["computecancel", "computecancel"]][(j // 8) % 2], outcomes=["val"],
                            policy=["random", "pct"][(j // 8) % 2] + "+inflight")
+        if j % 8 == 3:
+            # F24: the key holds an expired entry that has not been removed yet; the load that is started because of it is in flight
+            # while a maintenance run removes the dead node (not a write): the loaded value must be cached
+            out[-1].update(getters=1 + (j // 8) % 2, bulk=0, writers=[["sweep"], ["sweep", "sweep"]][(j // 16) % 2], outcomes=["val"], dead=1, expiry=1,
+                           policy=["random", "pct", "random", "pct"][(j // 8) % 4] + ["+inflight", "+inflight", "", "+atinstall"][(j // 8) % 4])
     return out
 
 
@@ -266,7 +271,13 @@ def run(prop, tier, replay=None, collect_only=False):
             if prop == "C11":
                 inst = [("g1r2w1", lr_cfg([1], [3, 4], [11], "WK_set", True, preload=True))]
                 neg = []
-            elif prop in ("C10", "C20"):
+            elif prop == "C10":
+                # F24: the removal of an expired, not yet removed entry while the load started because of it is in flight
+                inst = [("g2sweep", lr_cfg([1, 2], [], [11, 12], "WK_sweep_set", True, dead=True))]
+                neg = [("neg_F24", lr_cfg([1, 2], [], [11], "WK_sweep", False, dead=True, sweep_cancels=True), "NoDrop")]
+                if not quick:
+                    inst += [("g2r1sweep", lr_cfg([1, 2], [3], [11, 12], "WK_sweep_set", True, dead=True)), ("g2r1sweepinv", lr_cfg([1, 2], [3], [11, 12], "WK_sweep_inv", True, dead=True))]
+            elif prop == "C20":
                 inst, neg = [], []
             elif not quick:
                 inst += [("g1r2w2p", lr_cfg([1], [3, 4], [11, 12], "WK_two", False, preload=True)), ("g2r1w1", lr_cfg([1, 2], [3], [11], "WK_set", False)),
